@@ -72,6 +72,14 @@ def gen_cases(tier, seed):
         for h in hists:
             for fh in qfh:
                 yield dict(kind="nest", which=k, hist=h, fh=fh, fam=seed % 2)
+    # the horizon given to fit as ABSOLUTE time points (stacking must still train its
+    # meta-regressor on member forecasts of the held-out final window)
+    for sub in subsets(range(3)):
+        for fh in ([1], [2, 3], [1, 2, 3], [3]):
+            yield dict(kind="stack", members=sub, hist="fp", fh=fh, fam=seed % 2, absfh=True)
+            for h in ("fp", "fUp", "fup"):
+                yield dict(kind="ens", members=sub, agg="mean", hist=h, fh=fh, fam=seed % 2,
+                           absfh=True)
     # members fitted as tasks of a parallel call (n_jobs=2 under the harness' own joblib backend,
     # which collects all tasks of a call before running them in submission order)
     for sub in ([0, 1], [0, 1, 2]):
@@ -250,13 +258,19 @@ def _build_real(spec):
     return fmenu.build(spec)
 
 
-def _play(obj, spec, hist, y_full, n0, fh, manual):
+def _play(obj, spec, hist, y_full, n0, fh, manual, absfh=False):
     """run a history; returns list of observations"""
     out = []
     needs = fmenu.needs_fh_at_fit(spec)
     pos = n0
     if manual:
         obj.fit(y_full.iloc[:n0].copy(), fh)
+    elif absfh:
+        from sktime.forecasting.base import ForecastingHorizon
+
+        c0 = int(y_full.index[n0 - 1])
+        obj.fit(y_full.iloc[:n0].copy(),
+                fh=ForecastingHorizon(np.array([c0 + h_ for h_ in fh]), is_relative=False))
     else:
         obj.fit(y_full.iloc[:n0].copy(), fh=fh)
     for ch in hist[1:]:
@@ -355,7 +369,7 @@ def run_case(case):
         with sched.order_backend():
             a = call(_play, real, spec, hist, y, n0, fh, False)
     else:
-        a = call(_play, real, spec, hist, y, n0, fh, False)
+        a = call(_play, real, spec, hist, y, n0, fh, False, bool(case.get("absfh")))
     log_r = [(t[0].replace("#r", ""),) + tuple(t[1:]) for t in doubles.LOG if "#r" in t[0]]
     tok_r = None
     if spec[0] == "stack" and a.ok:
